@@ -1049,6 +1049,36 @@ def adversarial(n):
     ]
 
 
+# --------------------------------------------------------------------------------------- lexical units (tight layout)
+
+LIT_INDEXES = [11, 12, 13, 14, 15, 16, 17, 18, 19, 20, 21, 22, 23, 24, 25, 26, 27, 28, 29, 30, 31, 32, 34, 35, 36]
+
+
+def sample_units():
+    """representative well-formed lexical units in the Lean driver's notation (Proofs/OalTight.lean `LexUnit`):
+    every token class, every fixed-string token (by rule index in the generated table), the fused unit NS::"""
+    out = []
+    for w in ['x', 'a_1', 'Foo', 'e', 'ends', '_', 'If', 'SELECT', 'not_empty', 'R1', 'f', 'L']:
+        out.append([Sym('word'), w])
+    for n in ['0', '12', '007']:
+        out.append([Sym('number'), n])
+    for f in ['1.5', '.5', '3.', '2.e3', '1e5', '6.02f', '1.0L', '7e-2', '9.E+1']:
+        out.append([Sym('fraction'), f])
+    for st in ['""', '"a b"', '"it\'s"']:
+        out.append([Sym('string'), st])
+    for t in ["'p'", "''", "'a\nb'"]:
+        out.append([Sym('ticked'), t])
+    out.append([Sym('endfor'), 'end for'])
+    out.append([Sym('endif'), 'END\tIF'])
+    out.append([Sym('endwhile'), 'End\n While'])
+    for i in LIT_INDEXES:
+        out.append([Sym('lit'), i])
+    out.append([Sym('div')])
+    for n in ['LOG', 'ns_1', '1a']:
+        out.append([Sym('ns'), n])
+    return out
+
+
 # --------------------------------------------------------------------------------------- the real lexer
 
 _lexer_parser = None
